@@ -1,7 +1,9 @@
 (* C10  segmentation splits the support at every boundary; get_overlap finds shared time.
    Exact cell-level statements at eps = 0. Statements only.
-   (Annotation.get_overlap is stated in the annotation part, see C10_ann_* below when present.) *)
-From PV Require Import Model.Timeline Proofs.SortedP Proofs.SupportP Proofs.GapsP Proofs.SegmentationP.
+   Annotation.get_overlap(labels=None) is proved below; with a `labels` argument it is the same
+   function applied to subset(labels) (C11) and is tied exactly by the correspondence. *)
+From PV Require Import Model.AnnotationOps Proofs.SortedP Proofs.SupportP Proofs.GapsP Proofs.SegmentationP
+  Proofs.AnnotationInvP Proofs.AnnOverlapP.
 
 Section C10.
 Variable l : list seg.
@@ -33,6 +35,13 @@ Theorem C10_get_overlap : canonical (get_overlap 0 l) /\
 Proof. exact (get_overlap_spec l Hl). Qed.
 End C10.
 
+(* Annotation.get_overlap(): the canonical decomposition of the cells where two tracks with different
+   labels are active together (same-label overlaps do not count) *)
+Theorem C10_annotation_get_overlap : forall a, WF 0 (a_tracks a) ->
+  canonical (get_overlap_ann 0 a None) /\
+  (forall k, covers_cell (get_overlap_ann 0 a None) k <-> two_labels_active a k).
+Proof. exact ann_get_overlap_spec. Qed.
+
 Example C10_nonvacuous :
   wf 0 [(0,4); (1,2); (1,6); (8,9); (9,11)] /\
   segmentation 0 [(0,4); (1,2); (1,6); (8,9); (9,11)] = [(0,1); (1,2); (2,4); (4,6); (8,9); (9,11)] /\
@@ -45,3 +54,4 @@ Print Assumptions C10_segmentation_pieces.
 Print Assumptions C10_original_is_union_of_pieces.
 Print Assumptions C10_segmentation_sorted.
 Print Assumptions C10_get_overlap.
+Print Assumptions C10_annotation_get_overlap.
